@@ -12,7 +12,7 @@ CONSTANTS
   MaxForeign = 2
   MaxLate = 2
   QuorumSet = {"One", "N2", "Maj", "All"}
-  Triples = {{1, 2, 13}, {1, 2, 3}, {13, 14, 15}, {13, 16, 17}, {4, 5, 9}, {13, 14, 1}, {4, 6, 19}, {4, 5, 19}, {4, 20, 19}}
+  Triples = {{1, 2, 13}, {1, 2, 3}, {13, 14, 15}, {13, 16, 17}, {4, 5, 9}, {13, 14, 1}, {4, 6, 19}, {4, 5, 19}, {4, 20, 19}, {13, 14, 22}, {15, 22, 23}}
   SplitSizes = {2}
   AllCfgs = TRUE
   IsRegSet = {FALSE, TRUE}
